@@ -448,7 +448,11 @@ def finish(rec):
 def classify(w):
     # the C02 known finding seen through this property: kaldi_shift with frame_shift//2 > frame_length//2 makes
     # the padding negative, so finalize (or the first frame of compute_chunk) raises ValueError from np.pad
-    if w.get("check") == "raise" and w.get("kaldi") and w.get("style") == "centered" and w.get("fs", 0) // 2 > w.get("fl", 0) // 2 \
-            and "negative values" in str(w.get("exc", "")):
-        return "kaldi-shift-negative-left-pad"
+    if w.get("kaldi") and w.get("style") == "centered" and w.get("fs", 0) // 2 > w.get("fl", 0) // 2:
+        if w.get("check") == "raise" and "negative values" in str(w.get("exc", "")):
+            return "kaldi-shift-negative-left-pad"
+        # after-effects in the same geometry: a compute_chunk / finalize that died half-way leaves the dtype and
+        # the started flag of the aborted utterance behind
+        if w.get("check") in ("twin", "started"):
+            return "kaldi-shift-negative-left-pad"
     return None
